@@ -3,6 +3,8 @@ from __future__ import annotations
 
 import copy
 
+import attr
+
 import initbuild as ib
 import ir_from_source
 
@@ -30,6 +32,14 @@ RULE = ("random single-inheritance chains (depth<=3, attrs classes via attr.s/de
         "real chain's but print a TWIN tag). MODELLED: 20% of the converters are chains (`converter=[..]` / converters.pipe) "
         "of 2-3 members mixing plain callables and Converter(takes_self, takes_field) instances, every member its own "
         "traced callback (Attr.pipe). "
+        "Declared defaults are plain strings or instances of user subclasses of str / int / bytes (they canonicalise to the "
+        "default token only while of that exact type), and a field showing its default must hold the DECLARED object (identity; "
+        "a breach is the pseudo-event `default-not-identical`); non-self factories are written `factory=f` or `default=Factory(f)`; "
+        "15% of the fields use hostile-but-valid callable OBJECTS (falsy, __len__ 0, raising __bool__, raising __eq__, equal to "
+        "everything) as factory / converter / validator where the unchanged attrs accepts them; post-init hooks may re-store "
+        "fields / call BaseException.__init__; the hooked-base <- plain <- SLOTTED-subclass shape is generated whenever the "
+        "subclass's own class-level hook is alive (only the genuinely 'slotted confused' shape, K6 of C06, stays out -- also "
+        "out of the shrinker). "
         "Non-trivial = the class has >=1 field that is not (mandatory, positional, no converter); distinct = distinct (class spec, call). "
         "Thorough tier only (T3): additionally one `script` case per generated class -- the real source text of its "
         "__init__/__attrs_init__ parsed into the IR of Model/InitIR.lean and compared syntactically with the model generator's script")
@@ -64,6 +74,7 @@ LEVEL_TEXT = ("[converter chains: `pipe()` is modelled as the left-to-right run 
               "parameters (<=64 calls, each callback failing in turn) against C01.spec/C02.spec.")
 
 
+POST_MODES = 0.5  # share of post-init hooks that re-store fields / call BaseException.__init__ themselves
 PIPES = 0.2      # share of fields whose converter is a chain (list / pipe) of 2-3 members
 ODD = 0.12       # share of argument values that are objects with unusual __eq__/__ne__/__bool__/__hash__
 
@@ -86,7 +97,7 @@ def is_script(case):
 def gen_cases(tier, rng):
     n_classes = 5000 if tier == "quick" else 80000
     for _ in range(n_classes):
-        h = ib.gen_hspec(rng, pipes=PIPES)
+        h = ib.gen_hspec(rng, pipes=PIPES, post_modes=POST_MODES, dflt_objs=True)
         try:
             ib.build(h)
         except Exception as e:  # noqa: BLE001 -- the generator only emits valid definitions; count and skip
@@ -121,6 +132,9 @@ def observe(case):
     if is_script(case):
         return observe_script(case)
     h, call = case["hspec"], case["call"]
+    bad = definition_failure(h)
+    if bad is not None:
+        return bad
     inst, obs = ib.construct(h, call, None, True)
     calls = calls_of(obs["trace"])
     # once through the converter IN THIS CALL, a FRESH factory result: construct a second instance the same way;
@@ -128,6 +142,19 @@ def observe(case):
     # and the second call must invoke the same callbacks.  A breach is recorded as a pseudo-event no model emits.
     names = [n for n, _ in obs["values"]]
     first = _raw_values(inst, names)
+    # "else its declared default": a field that shows its default must hold the DECLARED object itself (identity, hence
+    # exact type), not an equal value rebuilt from it
+    if obs["exc"] is None:
+        try:
+            decl = {a.name: a for a in attr.fields(type(inst))}
+        except Exception:  # noqa: BLE001
+            decl = {}
+        for n, v in zip(names, first):
+            a = decl.get(n)
+            if (a is not None and a.converter is None and a.default is not attr.NOTHING
+                    and not isinstance(a.default, attr.Factory) and v is not None and v is not a.default
+                    and ib._canon(v) == ib._canon(a.default)):
+                calls.append({"id": {"kind": "default-not-identical", "field": n, "idx": 0}, "args": []})
     if obs["exc"] is None and any(isinstance(v, ib.Fresh) for v in first):
         inst2, obs2 = ib.construct(h, call, None, True)
         second = _raw_values(inst2, names)
@@ -138,6 +165,17 @@ def observe(case):
             calls.append({"id": {"kind": "second-call-differs", "field": "", "idx": 0}, "args": []})
     obs["trace"], obs["excArgs"], obs["cache"] = calls, None, None      # C02 / C04 observe the rest
     return obs
+
+
+def definition_failure(h):
+    """a stored (corpus / replay) specification that defined when it was recorded must still define: if its classes
+    cannot be built the observation is the failure itself (never a model output, so the case is a violation)"""
+    try:
+        ib.build(h)
+        return None
+    except Exception as e:  # noqa: BLE001
+        return {"sig": [], "annotations": [], "exc": "other", "values": [], "excArgs": None, "cache": None,
+                "trace": [{"id": {"kind": "definition-error:" + type(e).__name__, "field": "", "idx": 0}, "args": []}]}
 
 
 def calls_of(trace):
@@ -204,6 +242,11 @@ def history_dist(case):
         "dflt_decorator": sum(1 for f in fs if f.get("default") == "decorator"),
         "side_base": "+".join((cs.get("side_base") or {}).get("pos", "-")[0] for cs in cl),
         "eq_twin": bool(cl[0].get("eq_twin")),
+        "dflt_kinds": ",".join(sorted({f.get("dflt_kind", "str") for f in fs if f.get("default") == "value"})) or "-",
+        "cb_odd": ",".join(sorted({f["cb_odd"] for f in fs if f.get("cb_odd")})) or "-",
+        "factory_Factory": sum(1 for f in fs if f.get("default") == "factory" and f.get("factory_style") == "Factory"),
+        "post_mode": "+".join(str(cs.get("post_mode") or ("p" if cs.get("post") else "-")) for cs in cl),
+        "plain_mid_slotted_leaf": bool(len(cl) >= 3 and any(c["kind"] == "plain" for c in cl[1:-1]) and ib.leaf_slots(cl[-1])),
         "pipes": ",".join(sorted("".join("p" if k == "plain" else "C" for k in f["pipe"]) for f in expected_pipes(case))) or "-",
     }
 
@@ -224,7 +267,7 @@ def shrink_history(case, remake):
     h = case["hspec"]
     call = case["call"]
     for ci, cs in enumerate(h["classes"]):
-        for key in ("siblings", "deco", "field_transformer", "side_base", "eq_twin"):
+        for key in ("siblings", "deco", "field_transformer", "side_base", "eq_twin", "post_mode"):
             if cs.get(key):
                 h2 = copy.deepcopy(h)
                 h2["classes"][ci].pop(key)
@@ -251,8 +294,8 @@ def shrink_history(case, remake):
             h2["classes"][ci]["deco"]["shared"] = False
             yield from remake(h2, call)
         for fi, f in enumerate(cs.get("fields", [])):
-            for key in ("v_shared", "v_deco", "v_and"):
-                if f.get(key):
+            for key in ("v_shared", "v_deco", "v_and", "cb_odd", "factory_style", "dflt_kind"):
+                if f.get(key) and f.get(key) not in ("str", "sugar"):
                     h2 = copy.deepcopy(h)
                     h2["classes"][ci]["fields"][fi].pop(key)
                     yield from remake(h2, call)
@@ -340,6 +383,8 @@ def shrink(case):
 
 
 def _remake(h2, call):
+    if ib.confusing_plain(h2["classes"]):
+        return        # the "slotted confused" shape (K6 of C06) is outside the construction properties: never shrink into it
     try:
         ib.build(h2)
         yield make_case(h2, call)
